@@ -180,8 +180,12 @@ func gen(seed uint64, tier string) Scenario {
 	// heavy duplication: most datagrams arrive twice, over a longer run (the receivers' handling
 	// of packets behind the last delivered one)
 	if x := core.HS(seed, "c01.heavydup", "", 0); x%100 < 6 {
+		// ... and nothing else: with loss or reordering on top, a receiver that flushes its reorder
+		// buffer makes the next hop see a burst followed by more than BufferSize stale datagrams in a
+		// row, which the receivers legitimately take for a sender restart (C14's restart clause)
 		n.UDPDup = 0.9
-		n.UDPJitUS = max(n.UDPJitUS, 500)
+		n.UDPDrop, n.UDPReorder, n.UDPBurst, n.BurstLen = 0, 0, 0, 0
+		n.UDPJitUS = min(500, sc.IntUS/2)
 		if sc.Packets < 120 {
 			sc.Packets = 120 + int((x>>8)%80)
 		}
